@@ -378,3 +378,118 @@ def _(c):
         # first order: relative 2 % of the whole request, plus second-order terms (total^2 / v) and the eccentricity's share
         ok = ok and err <= 0.02 * total + 3 * total ** 2 / vn + 2.5 * e * total
     c.ensure("increments_realised_to_first_order", ok)
+
+
+# ---------------------------------------------------------------------------------------------
+# frames attached to an orbit
+# ---------------------------------------------------------------------------------------------
+
+ORI = "beyond.frames.orient"
+
+
+@contract("C17", "lof", funcs=[f"{ORI}:LocalOrbitalOrientation.__init__", f"{ORI}:LocalOrbitalOrientation._to_parent"], level="proof",
+          assumptions=["callee contracts: to_local(kind, state) (C17.to_local / qsw / tnw: the proper rotation parent axes -> local axes of that state); state.propagate(date) returns the "
+                       "state at `date`; state.copy(form, frame) is the same state in that form and frame (C01, C02)"])
+def _(c):
+    """proved: a local orbital orientation publishes its provider as <name>_to_<parent orientation> and links itself to the parent's orientation only; the provider returns the
+    transpose of to_local(kind, s) -- i.e. the rotation local -> parent -- for s the attached state *at the requested date* (propagated when it can be, as given otherwise)
+    expressed in cartesian form in the parent frame, and no rotation rate"""
+    if not c.symbolic:
+        return
+    log = []
+    M = np.array([[c.real(f"m{i}{j}") for j in range(3)] for i in range(3)], dtype=object)
+    moving = bool(c.boolean("attached_state_can_be_propagated"))
+    kind = c.choice("kind", ["QSW", "TNW"])
+
+    class State:
+        def __init__(self, tag):
+            self.tag = tag
+
+        def copy(self, form=None, frame=None):
+            log.append(("copy", self.tag, form, frame))
+            return State((self.tag, form, frame))
+    attached = State("attached")
+    if moving:
+        attached.propagate = lambda d: log.append(("propagate", d)) or State(("at", d))
+
+    def to_local(kind_, sv, expanded=True):
+        log.append(("to_local", kind_, sv.tag, expanded))
+        return M
+    links = []
+
+    class POrient:
+        name = "PARENT"
+
+        def __add__(self, other):
+            links.append(other)
+            return self
+    parent = types.SimpleNamespace(orientation=POrient())
+    w = c.world(names={ORI: {"local": types.SimpleNamespace(to_local=to_local)}})
+    lof = w.new(f"{ORI}:LocalOrbitalOrientation", "LOF", attached, kind, parent)
+    c.ensure("linked_to_the_parent_orientation_only", len(links) == 1 and links[0] is lof)
+    import beyond.frames.orient as real_orient
+    c.ensure("provider_published_under_the_parent_orientation_name", callable(getattr(real_orient.Orientation, "LOF_to_PARENT", None)))
+    date = object()
+    m, rate = lof._to_parent(date)
+    c.ensure("no_rate", rate is None)
+    c.ensure("is_the_transpose_of_to_local", c.all_eq(np.asarray(m, dtype=object), M.T))
+    src = ("at", date) if moving else "attached"
+    c.ensure("state_at_the_requested_date_in_the_parent_frame", [x for x in log if x[0] != "propagate"] == [("copy", src, "cartesian", parent), ("to_local", kind, (src, "cartesian", parent), False)]
+             and ([x for x in log if x[0] == "propagate"] == ([("propagate", date)] if moving else [])))
+
+
+def _grid_oframe(tier, rng):
+    """reference orbits {LEO inclined, Molniya} x axes {QSW, TNW, inertial} x reference given as {state vector, Kepler orbit} x dates {epoch, +1000 s, -2500 s} x 3 seeded probe states"""
+    for o in (0, 1):
+        for ax in (0, 1, 2):
+            for mv in (0, 1):
+                for dt in (0.0, 1000.0, -2500.0):
+                    if not mv and dt:
+                        continue
+                    yield {"orbit": o, "axes": ax, "moving": mv, "dt": dt, "seed": o * 7 + ax}
+
+
+@contract("C17", "orbit_frame.native", funcs=["beyond.frames.frames:orbit2frame", f"{ORI}:LocalOrbitalOrientation._to_parent", "beyond.frames.center:Center._to_parent", f"{L}:to_local"],
+          grid=_grid_oframe, level="bounded")
+def _(c):
+    """bounded: a frame attached to an orbit places that orbit at its origin at every date (the propagated orbit when it has a propagator; at rest there when the axes are
+    inertial), converts any other state to and from its parent frame without loss (1e-6 m, 1e-9 m/s), and its axes are the radial / velocity direction, the angular momentum
+    and their completion of the orbit at that date"""
+    from beyond.orbits import Orbit, StateVector
+    from beyond.dates import Date, timedelta
+    from beyond.propagators.kepler import Kepler
+    from beyond.frames.frames import orbit2frame
+    from beyond.constants import Earth
+    from contracts.c19_mission import _kep2cart
+    a, e, i, O, w_, nu = [(6.9e6, 0.002, 0.9, 1.0, 2.0, 0.5), (2.66e7, 0.72, 1.1, 2.0, 4.7, 2.8)][c.integer("orbit")]
+    r0, v0 = _kep2cart(a, e, i, O, w_, nu, Earth.mu)
+    d0 = Date(2018, 5, 4, 3, 2, 1)
+    axes = [("QSW"), ("TNW"), None][c.integer("axes")]
+    x0 = list(r0) + list(v0)
+    ref = Orbit(x0, d0, "cartesian", "EME2000", Kepler()) if c.integer("moving") else StateVector(x0, d0, "cartesian", "EME2000")
+    fr = orbit2frame(f"OF{c.integer('orbit')}{c.integer('axes')}{c.integer('moving')}{int(c.real('dt'))}", ref, orientation=axes, exists_warning=False)
+    date = d0 + timedelta(seconds=c.real("dt"))
+    at = ref.propagate(date) if c.integer("moving") else ref
+    here = np.asarray(at.copy(frame=fr, form="cartesian"), dtype=float)
+    c.ensure("orbit_at_the_origin", bool(np.linalg.norm(here[:3]) <= 1e-6))
+    if axes is None:
+        c.ensure("orbit_at_rest_in_its_frame", bool(np.linalg.norm(here[3:]) <= 1e-9))
+    rng = np.random.default_rng(c.integer("seed"))
+    r, v = np.asarray(at, dtype=float)[:3], np.asarray(at, dtype=float)[3:]
+    h = np.cross(r, v)
+    first = (r if axes == "QSW" else v) if axes else np.array([1.0, 0, 0])
+    ok_rt = ok_axes = True
+    for k in range(3):
+        probe = StateVector(list(r + rng.normal(size=3) * 2.0e3) + list(v + rng.normal(size=3) * 2.0), date, "cartesian", "EME2000")
+        there = probe.copy(frame=fr)
+        back = np.asarray(there.copy(frame="EME2000"), dtype=float)
+        ok_rt = ok_rt and bool(np.linalg.norm(back[:3] - np.asarray(probe, dtype=float)[:3]) <= 1e-6 and np.linalg.norm(back[3:] - np.asarray(probe, dtype=float)[3:]) <= 1e-9)
+        if axes:
+            d = np.asarray(probe, dtype=float)[:3] - r
+            u1 = first / np.linalg.norm(first)
+            u3 = h / np.linalg.norm(h)
+            u2 = np.cross(u3, u1)
+            want = np.array([d @ u1, d @ u2, d @ u3])
+            ok_axes = ok_axes and bool(np.linalg.norm(np.asarray(there, dtype=float)[:3] - want) <= 1e-6)
+    c.ensure("round_trip_without_loss", ok_rt)
+    c.ensure("axes_are_those_of_the_orbit_at_that_date", ok_axes)
